@@ -179,10 +179,26 @@ pub mod nullcrypto {
         }
     }
 
+    /// identity-plus-tag stand-in for the token AEAD (tokens are outside every claim made with this key)
+    pub struct NullAead;
+    impl crypto::AeadKey for NullAead {
+        fn seal(&self, data: &mut Vec<u8>, _: &[u8]) -> Result<(), CryptoError> {
+            data.push(0xa5);
+            Ok(())
+        }
+        fn open<'a>(&self, data: &'a mut [u8], _: &[u8]) -> Result<&'a mut [u8], CryptoError> {
+            let n = data.len();
+            if n == 0 || data[n - 1] != 0xa5 {
+                return Err(CryptoError);
+            }
+            Ok(&mut data[..n - 1])
+        }
+    }
+
     pub struct NullTokenKey;
     impl crypto::HandshakeTokenKey for NullTokenKey {
         fn aead_from_hkdf(&self, _: &[u8]) -> Box<dyn crypto::AeadKey> {
-            unimplemented!()
+            Box::new(NullAead)
         }
     }
 }
@@ -1385,4 +1401,37 @@ pub fn datagram_unblock_native(n: u8) -> u32 {
     assert!(unblocked == 1, "a blocked sender's queue was transmitted but DatagramsUnblocked was reported {} times", unblocked);
     assert!(!conn.datagrams.send_blocked);
     1
+}
+
+/// Native replay body for the E2 slice query `e2_poll_transmit_close_not_congestion_blocked_slice` (C08 /
+/// C12), and demonstration for finding 14: an established connection whose congestion window is full (and,
+/// `queued`, which has stream data waiting) is closed by the application.  The very next `poll_transmit` must
+/// produce the closing packet.
+pub fn close_under_congestion_native(queued: bool) -> u32 {
+    let mut conn = mk_established(true);
+    conn.path.mtud = mtud::mk_disabled();
+    conn.peer_params.initial_max_data = VarInt::from_u32(1 << 20);
+    conn.peer_params.initial_max_streams_uni = VarInt::from_u32(4);
+    conn.peer_params.initial_max_stream_data_uni = VarInt::from_u32(1 << 16);
+    let pp = conn.peer_params;
+    conn.streams.set_params(&pp);
+    let now = crate::verif::mk_instant(51, 0).unwrap();
+    if queued {
+        let s = conn.streams().open(Dir::Uni).expect("stream credit");
+        assert!(conn.send_stream(s).write(&[7u8; 3000]).is_ok());
+    }
+    let w = conn.path.congestion.window();
+    let filler = SentPacket { path_generation: 0, time_sent: now, size: 1200, ack_eliciting: true, largest_acked: None, retransmits: ThinRetransmits::default(), stream_frames: Default::default() };
+    while paths::in_flight_bytes(&conn.path) + 1200 < w {
+        paths::in_flight_insert(&mut conn.path, &filler);
+    }
+    let mut buf = Vec::with_capacity(8 * 1452);
+    if queued {
+        assert!(conn.poll_transmit(now, 1, &mut buf).is_none(), "the prepared congestion window is not full");
+    }
+    conn.close(now, VarInt::from_u32(42), Bytes::from_static(b"bye"));
+    let t = conn.poll_transmit(now, 1, &mut buf);
+    assert!(t.is_some(), "a local close was not announced because the congestion window is full");
+    assert!(!conn.close, "the packet that was sent is not the closing packet");
+    1 + queued as u32
 }
